@@ -362,6 +362,24 @@ theorem absIndex_eq_some_iff (dims : List (Int × Int)) (idx : List Int) (k : Na
     rw [absIndex_rowMajor hb, hk]
     simp
 
+
+/-- The checked element count of `VArray::try_new` is the plain product whenever it answers, and it answers
+(no Out of memory from counting) whenever every extent is non-negative and the product is below 2^64. -/
+theorem dimsLenChecked_eq : ∀ (ds : List (Int × Int)) (acc n : Nat), dimsLenChecked ds acc = some n →
+    n = acc * prodExt ds
+  | [], acc, n, h => by simp only [dimsLenChecked, Option.some.injEq] at h; simp [prodExt, h]
+  | (lb, ub) :: ds, acc, n, h => by
+      simp only [dimsLenChecked] at h
+      split at h
+      · cases h
+      · split at h
+        · cases h
+        · rw [dimsLenChecked_eq ds _ n h, prodExt, extent, Nat.mul_assoc]
+
+theorem dimsLenChecked_some (ds : List (Int × Int)) (n : Nat) (h : dimsLenChecked ds 1 = some n) :
+    n = dimsLen ds := by
+  rw [dimsLenChecked_eq ds 1 n h, dimsLen_eq_prodExt, Nat.one_mul]
+
 /-! ### The `i32` arithmetic of `abs_index` -/
 
 theorem wrap32_id {x : Int} (h1 : -2147483648 ≤ x) (h2 : x < 2147483648) : wrap32 x = x := by
@@ -1006,6 +1024,9 @@ example : WF (VArray.new [(-2, 1), (3, 4)] (0 : Int)) := new_wf _ _
 example : ∃ a', setElem (VArray.new [(-2, 1), (3, 4)] (0 : Int)) [0, 4] 7 = some a' :=
   (setElem_some_iff (new_wf _ _) _ _).mpr (by decide)
 example : dimsLen [(-2, 1), (3, 4)] < 2147483648 := by decide
+example : dimsLenChecked [(-2, 1), (3, 4)] 1 = some 8 := by decide
+/-- `DIM A(-32768 TO 32767, …)` four times: 2^64 elements cannot be counted: Out of memory -/
+example : dimsLenChecked [(-32768, 32767), (-32768, 32767), (-32768, 32767), (-32768, 32767)] 1 = none := by decide
 /-- a record with two fields; `setField` through a differently cased name -/
 example : ∃ r', setField (Rec.new [(['a', 'b'], (1 : Int)), (['C'], 2)]) ['A', 'b'] 5 = some r' :=
   (field_set_some_iff _ _ _).mpr ⟨1, by decide⟩
